@@ -10,6 +10,7 @@ from sfa.model import call_name
 from sfa.model import kwarg
 from sfa.model import norm
 from sfa.model import walk_local
+from sfa import roles
 from sfa.report import Ctx
 
 GROUP_SITES = (
@@ -42,7 +43,12 @@ def partition_by_construction(ctx: Ctx) -> None:
             continue
         lp = loops[0]
         iname, gvar = (norm(e) for e in lp.target.elts)
-        sels = [a for a in ast.walk(lp) if isinstance(a, ast.Assign) and norm(a.targets[0]) == 'selection']
+        # the member selection: the one local of the loop body that every yield of this loop slices with (by role: a local assigned in
+        # the loop and used inside the yielded expressions)
+        assigned = [a for a in ast.walk(lp) if isinstance(a, ast.Assign) and isinstance(a.targets[0], ast.Name)]
+        in_yield = {x.id for y in ast.walk(lp) if isinstance(y, ast.Yield) for x in ast.walk(y) if isinstance(x, ast.Name)}
+        cand = [a for a in assigned if a.targets[0].id in in_yield and any(isinstance(x, ast.Name) and x.id in (lname, iname) for x in ast.walk(a.value))]
+        sels = cand if cand else [a for a in assigned if isinstance(a.value, ast.Compare)]
         good = len(sels) == 1 and norm(sels[0].value) in (f'{lname} == {iname}', f'{iname} == {lname}')
         (ctx.ok if good else ctx.bad)(R, f, sels[0] if sels else lp, f'selection = {lname} == {iname}' if good else
                                       f'members of group {iname} are selected by `{norm(sels[0].value) if sels else "?"}` instead of `{lname} == {iname}`: rows land in another group or in several', key=f'{key}:selection')
@@ -67,45 +73,85 @@ def group_pairs(ctx: Ctx) -> None:
     prog = ctx.prog
     f = prog.method('Frame', '_axis_group_labels_items', inherited=False)
     for c in [c for c in walk_local(f.node) if isinstance(c, ast.Call) and norm(c.func) == 'self.__class__']:
-        idx, cols = norm(kwarg(c, 'index')), norm(kwarg(c, 'columns'))
-        tb_defs = [a for a in walk_local(f.node) if isinstance(a, ast.Assign) and norm(a.targets[0]) == 'tb' and a.lineno < c.lineno]
-        tb = norm(tb_defs[-1].value) if tb_defs else ''
-        rows = idx == 'self._index[selection]' and cols == 'self._columns' and tb == 'self._blocks._extract(row_key=selection)'
-        colsel = idx == 'self._index' and cols == 'self._columns[selection]' and tb == 'self._blocks._extract(column_key=selection)'
-        (ctx.ok if rows or colsel else ctx.bad)(R, f, c, f'data {tb}; index {idx}; columns {cols}' if rows or colsel else
-                                                f'group container pairs data `{tb}` with index `{idx}` and columns `{cols}`: labels and data are not sliced by the same selection / axis',
-                                                key=f'_axis_group_labels_items:{"rows" if "row_key" in tb else "cols"}')
+        idx, cols = kwarg(c, 'index'), kwarg(c, 'columns')
+        data = c.args[0] if c.args else kwarg(c, 'data')
+        # the data argument's latest definition before this call
+        tbv = data
+        if isinstance(data, ast.Name):
+            tb_defs = [a for a in walk_local(f.node) if isinstance(a, ast.Assign) and isinstance(a.targets[0], ast.Name) and a.targets[0].id == data.id and a.lineno < c.lineno]
+            tbv = tb_defs[-1].value if tb_defs else data
+        shape = _pair_shape(tbv, idx, cols)
+        (ctx.ok if shape else ctx.bad)(R, f, c, f'{shape}: labels and data sliced by the same selection, other axis whole' if shape else
+                                       f'group container pairs data `{norm(tbv)}` with index `{norm(idx)}` and columns `{norm(cols)}`: labels and data are not sliced by the same selection / axis',
+                                       key=f'_axis_group_labels_items:{_branch_test(f.node, c)}')
     g = prog.method('Frame', '_axis_group_iloc_items', inherited=False)
-    loops = [n for n in walk_local(g.node) if isinstance(n, ast.For) and 'self._blocks.group(' in norm(n.iter)]
-    ctx.require(len(loops) == 1 and norm(loops[0].target) == '(group, selection, tb)', 'Frame._axis_group_iloc_items unpacks (group, selection, tb)')
+    loops = [n for n in walk_local(g.node) if isinstance(n, ast.For) and isinstance(n.iter, ast.Call) and call_name(n.iter) == 'self._blocks.group']
+    ctx.require(len(loops) == 1 and isinstance(loops[0].target, ast.Tuple) and len(loops[0].target.elts) == 3 and all(isinstance(e, ast.Name) for e in loops[0].target.elts),
+                'Frame._axis_group_iloc_items unpacks (group, selection, blocks) from TypeBlocks.group')
+    gname, sname, tname = (e.id for e in loops[0].target.elts)
     it = loops[0].iter
     good = norm(kwarg(it, 'axis')) == 'axis' and norm(kwarg(it, 'key')) == 'key'
     (ctx.ok if good else ctx.bad)(R, g, it, 'TypeBlocks.group receives the caller\'s axis and key', key='_axis_group_iloc_items:forward')
     for c in [c for c in ast.walk(loops[0]) if isinstance(c, ast.Call) and norm(c.func) == 'self.__class__']:
         idx, cols, data = norm(kwarg(c, 'index')), norm(kwarg(c, 'columns')), norm(c.args[0]) if c.args else ''
         under = _branch_test(loops[0], c)
-        rows = idx == 'self._index[selection]' and cols == 'self._columns' and under == 'axis == 0'
-        colsel = idx == 'self._index' and cols == 'self._columns[selection]' and under == 'axis == 1'
-        (ctx.ok if (rows or colsel) and data == 'tb' else ctx.bad)(R, g, c, f'axis {under[-1]}: data tb; index {idx}; columns {cols}' if (rows or colsel) and data == 'tb' else
-                                                                   f'under `{under}` the group pairs data `{data}` with index `{idx}` / columns `{cols}`', key=f'_axis_group_iloc_items:{under}')
+        rows = idx == f'self._index[{sname}]' and cols == 'self._columns' and under == 'axis == 0'
+        colsel = idx == 'self._index' and cols == f'self._columns[{sname}]' and under == 'axis == 1'
+        (ctx.ok if (rows or colsel) and data == tname else ctx.bad)(R, g, c, f'axis {under[-1:]}: data = the group\'s blocks; labels sliced by the group\'s selection' if (rows or colsel) and data == tname else
+                                                                    f'under `{under}` the group pairs data `{data}` with index `{idx}` / columns `{cols}`', key=f'_axis_group_iloc_items:{under}')
+        # the yielded key is the group's own key
+    ys = [y for y in ast.walk(loops[0]) if isinstance(y, ast.Yield) and isinstance(y.value, ast.Tuple)]
+    good = bool(ys) and all(norm(y.value.elts[0]) == gname for y in ys)
+    (ctx.ok if good else ctx.bad)(R, g, ys[0] if ys else g.node, 'each group is labelled by its own key', key='_axis_group_iloc_items:key')
     # TypeBlocks.group yields the selection it extracted with
     t = prog.func('type_blocks.TypeBlocks.group')
     ys = [y for y in walk_local(t.node) if isinstance(y, ast.Yield) and isinstance(y.value, ast.Tuple) and len(y.value.elts) == 3]
     ctx.require(len(ys) == 2, 'TypeBlocks.group yields (group, selection, blocks) per axis')
     for y in ys:
-        gk, sel, ext = (norm(e) for e in y.value.elts)
+        sel, ext = y.value.elts[1], y.value.elts[2]
         under = _branch_test(t.node, y)
-        good = sel == 'selection' and ((under == 'axis == 0' and ext == 'self._extract(row_key=selection)') or (under == 'axis == 1' and ext == 'self._extract(column_key=selection)'))
-        (ctx.ok if good else ctx.bad)(R, t, y, f'{under}: yields the selection together with {ext}' if good else
-                                      f'under `{under}` TypeBlocks.group yields `{sel}` with `{ext}`: the caller slices labels with a different selection than the data', key=f'TypeBlocks.group:{under}')
-    src_ok = 'group_source = self._extract_array(column_key=key)' in norm(t.node) and 'group_source = self._extract_array(row_key=key)' in norm(t.node)
-    (ctx.ok if src_ok else ctx.bad)(R, t, t.node, 'axis 0 groups by the key columns, axis 1 by the key rows', key='TypeBlocks.group:source')
+        kw = 'row_key' if under == 'axis == 0' else 'column_key' if under == 'axis == 1' else None
+        good = isinstance(sel, ast.Name) and kw is not None and isinstance(ext, ast.Call) and call_name(ext) == 'self._extract' and not ext.args \
+            and len(ext.keywords) == 1 and ext.keywords[0].arg == kw and norm(ext.keywords[0].value) == sel.id
+        (ctx.ok if good else ctx.bad)(R, t, y, f'{under}: yields the selection together with the blocks extracted by it' if good else
+                                      f'under `{under}` TypeBlocks.group yields `{norm(sel)}` with `{norm(ext)}`: the caller slices labels with a different selection than the data', key=f'TypeBlocks.group:{under}')
+    # what is grouped: axis 0 groups by the key columns, axis 1 by the key rows
+    calls = [c for c in walk_local(t.node) if isinstance(c, ast.Call) and call_name(c) == 'array_to_groups_and_locations' and c.args]
+    src_ok = False
+    if len(calls) == 1 and isinstance(calls[0].args[0], ast.Name):
+        sdefs = [a for a in walk_local(t.node) if isinstance(a, ast.Assign) and norm(a.targets[0]) == calls[0].args[0].id]
+        got = {(_branch_test(t.node, a), norm(a.value)) for a in sdefs}
+        src_ok = got == {('axis == 0', 'self._extract_array(column_key=key)'), ('axis == 1', 'self._extract_array(row_key=key)')}
+    (ctx.ok if src_ok else ctx.bad)(R, t, t.node, 'axis 0 groups by the key columns, axis 1 by the key rows' if src_ok else 'the grouping values are not the key columns (axis 0) / key rows (axis 1)', key='TypeBlocks.group:source')
     for m in ('_axis_group_items', '_axis_group_labels_items'):
-        s = prog.method('Series', m, inherited=False)
-        ys = [y for y in walk_local(s.node) if isinstance(y, ast.Yield)]
-        good = bool(ys) and all(isinstance(y.value, ast.Tuple) and norm(y.value.elts[1]) == 'self._extract_iloc(selection)' for y in ys)
-        (ctx.ok if good else ctx.bad)(R, s, ys[0] if ys else s.node, 'members extracted with _extract_iloc(selection) (labels and values together)' if good else
+        sm = prog.method('Series', m, inherited=False)
+        ys = [y for y in walk_local(sm.node) if isinstance(y, ast.Yield)]
+        good = bool(ys)
+        for y in ys:
+            v = y.value
+            ok = isinstance(v, ast.Tuple) and len(v.elts) == 2 and isinstance(v.elts[1], ast.Call) and call_name(v.elts[1]) == 'self._extract_iloc' and len(v.elts[1].args) == 1 \
+                and isinstance(v.elts[1].args[0], ast.Name)
+            if ok:
+                # the argument is the loop's member selection (a local assigned in the enclosing loop from a comparison)
+                nm = v.elts[1].args[0].id
+                ok = any(isinstance(a, ast.Assign) and isinstance(a.targets[0], ast.Name) and a.targets[0].id == nm and isinstance(a.value, ast.Compare) for a in walk_local(sm.node))
+            good = good and ok
+        (ctx.ok if good else ctx.bad)(R, sm, ys[0] if ys else sm.node, 'members extracted with _extract_iloc(selection) (labels and values together)' if good else
                                       'Series group members are not extracted with the selection', key=f'Series.{m}')
+
+
+def _pair_shape(data: tp.Optional[ast.expr], idx: tp.Optional[ast.expr], cols: tp.Optional[ast.expr]) -> str:
+    '''"rows" when data = self._blocks._extract(row_key=S), index = self._index[S], columns = self._columns (one and the same S);
+    "columns" for the mirror image; "" otherwise.'''
+    if not (isinstance(data, ast.Call) and call_name(data) == 'self._blocks._extract' and not data.args and len(data.keywords) == 1):
+        return ''
+    kw = data.keywords[0]
+    sel = norm(kw.value)
+    if kw.arg == 'row_key' and norm(idx) == f'self._index[{sel}]' and norm(cols) == 'self._columns':
+        return 'rows'
+    if kw.arg == 'column_key' and norm(cols) == f'self._columns[{sel}]' and norm(idx) == 'self._index':
+        return 'columns'
+    return ''
 
 
 def _branch_test(root: ast.AST, node: ast.AST) -> str:
@@ -122,34 +168,57 @@ def sort_fast_path(ctx: Ctx) -> None:
              'same slice, labels each run by its first value, advances the run start to the transition, and emits the final run', floor=6)
     prog = ctx.prog
     f = prog.method('Frame', '_axis_group_sort_items', inherited=False)
-    sv = [c for c in walk_local(f.node) if isinstance(c, ast.Call) and call_name(c) == 'self.sort_values']
+    # locals by role
+    rl: tp.Dict[str, tp.Optional[str]] = {
+        'frame_sorted': roles.assigned_from(f.node, lambda v: isinstance(v, ast.Call) and call_name(v) == 'self.sort_values'),
+        'transitions': roles.assigned_from(f.node, lambda v: any(isinstance(c, ast.Call) and call_name(c) == 'np.flatnonzero' for c in ast.walk(v))),
+        'group_values': roles.assigned_from(f.node, lambda v: isinstance(v, ast.Call) and call_name(v).endswith('._extract_array')),
+        'slc': roles.assigned_from(f.node, lambda v: isinstance(v, ast.Call) and call_name(v) == 'slice'),
+    }
+    for i, st in enumerate(f.node.body):
+        if isinstance(st, ast.For) and isinstance(st.iter, ast.Name) and st.iter.id == rl['transitions'] and isinstance(st.target, ast.Name):
+            rl['t'] = st.target.id
+            cs = roles.loop_counter(st, f.node.body[:i])
+            rl['start'] = cs[0] if cs else None
+    fs = rl['frame_sorted']
+    rl['index'] = roles.assigned_from(f.node, lambda v: isinstance(v, ast.Attribute) and isinstance(v.value, ast.Name) and v.value.id == fs and v.attr in ('index', 'columns'))
+    forig = f
+    fnode = roles.canonical(f.node, rl)
+
+    class _F:      # the canonical copy, presented like a FuncInfo where the rules below need .node
+        node = fnode
+    sv = [c for c in walk_local(fnode) if isinstance(c, ast.Call) and call_name(c) == 'self.sort_values']
     ctx.require(len(sv) == 1, '_axis_group_sort_items sorts once')
     good = kwarg(sv[0], 'kind') is None and kwarg(sv[0], 'ascending') is None and norm(sv[0].args[0]) == 'key' and norm(kwarg(sv[0], 'axis')) == 'not axis'
     (ctx.ok if good else ctx.bad)(R, f, sv[0], 'sort_values(key, axis=not axis) with the default stable kind, ascending' if good else
                                   f'`{norm(sv[0])}`: the group path overrides kind / direction or sorts another key — members lose their original relative order', key='sort')
-    loops = [n for n in walk_local(f.node) if isinstance(n, ast.For) and norm(n.iter) == 'transitions']
+    loops = [n for n in walk_local(fnode) if isinstance(n, ast.For) and norm(n.iter) == 'transitions']
     ctx.require(len(loops) == 1, 'run loop over transitions')
     body = [norm(s) for s in loops[0].body]
-    want = ['slc = slice(start, t)', 'yield (group_values[start], extract_frame(slc, index[slc]))', 'start = t']
+    hname = [nf.name for nf in f.nested if any(isinstance(c, ast.Call) and norm(c.func) == 'Frame' for c in walk_local(nf.node))]
+    hname = hname[0] if hname else 'extract_frame'
+    want = ['slc = slice(start, t)', f'yield (group_values[start], {hname}(slc, index[slc]))', 'start = t']
     good = body == want
     (ctx.ok if good else ctx.bad)(R, f, loops[0], 'each run [start, t) is labelled by group_values[start] and slices blocks and labels with the same slc' if good else
                                   f'run loop body is {body}', key='run-loop')
     # final run
-    after = [norm(s) for s in f.node.body[f.node.body.index(loops[0]) + 1:]] if loops[0] in f.node.body else []
-    good = after == ['yield (group_values[start], extract_frame(slice(start, None), index[start:]))']
+    after = [norm(s) for s in fnode.body[fnode.body.index(loops[0]) + 1:]] if loops[0] in fnode.body else []
+    good = after == [f'yield (group_values[start], {hname}(slice(start, None), index[start:]))']
     (ctx.ok if good else ctx.bad)(R, f, loops[0], 'the last run [start, end) is emitted with matching slices' if good else f'after the loop: {after}', key='final-run')
-    tr = [a for a in walk_local(f.node) if isinstance(a, ast.Assign) and norm(a.targets[0]) == 'transitions']
+    tr = [a for a in walk_local(fnode) if isinstance(a, ast.Assign) and norm(a.targets[0]) == 'transitions']
     good = bool(tr) and norm(tr[0].value) == 'np.flatnonzero(group_values != np.roll(group_values, 1))[1:]'
     (ctx.ok if good else ctx.unk)(R, f, tr[0] if tr else f.node, 'transitions = positions where a value differs from its predecessor (wrap-around entry dropped)', key='transitions')
-    ef = [nf for nf in f.nested if nf.name == 'extract_frame']
-    ctx.require(len(ef) == 1, 'extract_frame helper')
-    calls = [c for c in walk_local(ef[0].node) if isinstance(c, ast.Call) and norm(c.func) == 'Frame']
+    ef = [nf for nf in f.nested if any(isinstance(c, ast.Call) and norm(c.func) == 'Frame' for c in walk_local(nf.node))]
+    ctx.require(len(ef) == 1, 'frame-extracting helper')
+    efn = [n for n in ast.walk(fnode) if isinstance(n, ast.FunctionDef) and n.name == ef[0].name and n is not fnode]
+    calls = [c for c in walk_local(efn[0]) if isinstance(c, ast.Call) and norm(c.func) == 'Frame']
+    kparam, iparam = (ef[0].params + ['key', 'index'])[:2]
     for c in calls:
         data, idx, cols = norm(c.args[0]), norm(kwarg(c, 'index')), norm(kwarg(c, 'columns'))
-        rows = data == 'frame_sorted._blocks._extract(row_key=key)' and idx == 'index' and cols == 'self._columns'
-        colsel = data == 'frame_sorted._blocks._extract(column_key=key)' and cols == 'index' and idx == 'self._index'
+        rows = data == f'frame_sorted._blocks._extract(row_key={kparam})' and idx == iparam and cols == 'self._columns'
+        colsel = data == f'frame_sorted._blocks._extract(column_key={kparam})' and cols == iparam and idx == 'self._index'
         (ctx.ok if rows or colsel else ctx.bad)(R, ef[0], c, f'data {data}; index {idx}; columns {cols}' if rows or colsel else
                                                 f'extract_frame pairs `{data}` with index `{idx}` / columns `{cols}`', key=f'extract_frame:{"rows" if "row_key" in data else "cols"}')
-    gv = [norm(a.value) for a in walk_local(f.node) if isinstance(a, ast.Assign) and norm(a.targets[0]) == 'group_values']
+    gv = [norm(a.value) for a in walk_local(fnode) if isinstance(a, ast.Assign) and norm(a.targets[0]) == 'group_values']
     good = gv == ['frame_sorted._blocks._extract_array(column_key=iloc_key)', 'frame_sorted._blocks._extract_array(row_key=iloc_key)']
     (ctx.ok if good else ctx.bad)(R, f, f.node, 'group values and labels are read from the sorted frame' if good else f'group values: {gv}', key='values-from-sorted')
